@@ -11,7 +11,10 @@ type lazySubContext struct {
 }
 
 func (s *lazySubContext) GetMatch(idx int) string {
-	if idx < 0 || idx >= len(s.args) {
+	if idx < 0 { // not an argument: forward, so a context touch (eg. {time live}) reaches the caller's context
+		return s.sub.GetMatch(idx)
+	}
+	if idx >= len(s.args) {
 		return ""
 	}
 	return s.args[idx](s.sub)
